@@ -30,12 +30,16 @@ ordered sets so far, S <= floor(N/354) + 1 at all times (never too many), and wh
 permitted idle word, a SKP word must appear within the next 4 permitted idle words (not too few; pairs, as luna sends
 them, and single sets both satisfy this).
 
-link harness: every cycle `can_send_skp` must imply that the word offered to the physical layer is logical idle with
-`valid` high, must equal the transmit arbiter's `idle` output, and a word offered with `valid` low must be logical idle
-(the physical layer transmits whatever is on `sink` in every cycle).
+link harness: the stream offered to the physical layer is parsed with the USB 3.2 framing rules (header packet, link command,
+data packet payload, training sets); every cycle `can_send_skp` must imply that the offered word is logical idle with `valid`
+high and not part of a packet or ordered set; logical-idle filler outside packets must carry the permission except for at most
+two words per run of filler (the arbiter's switching cycle); a word offered with `valid` low must be logical idle (the physical
+layer transmits whatever is on `sink` in every cycle).
 
 Deviation from DESIGN.md 7/C33: the rate clause is judged on all transmitted symbols with a 4-word phase allowance instead
-of "within 3 cycles"; the link harness is a separate case type rather than part of every case.
+of "within 3 cycles"; the link harness is a separate case type rather than part of every case; `can_send_skp` is not compared
+with the arbiter's `idle` signal (an equivalent permission source, e.g. `~arbiter.source.valid`, keeps the property) but with
+the framing of the offered stream; `arbiter.idle` is observed through the registry for coverage only.
 
 Not judged: the stream before the sync word (start-up of the registered `ready`); `tx_electrical_idle` is held low after the
 start-up; cycles in which the physical layer would not accept a word (never happens in luna; the case is then counted as
@@ -45,9 +49,9 @@ from rv.sim import Bench, Registry
 from rv.ref import c31_lfsr as L
 
 PROPERTY = "C33"
-CASES = {"quick": 224, "thorough": 3200}
+CASES = {"quick": 192, "thorough": 3200}
 TIMEOUT = {"quick": 900, "thorough": 4 * 3600}
-RULE = ("case = harness (phy: link-stream script of 1.5k-6k words, 9 % mostly-idle sessions of 8k-14k words, 10 % overload sessions; "
+RULE = ("case = harness (phy: link-stream script of 1.5k-6k words, 9 % mostly-idle sessions of 6k-10k words, 10 % overload sessions; "
         "link: bring-up timing script) x scrambling on/off; non-trivial = at least two SKP words inserted (phy) / equaliser "
         "training reached (link); distinct = hash of the full script")
 REQUIRED_BINS = ["mode_phy", "mode_link", "scrambling_on", "scrambling_off",
@@ -55,10 +59,12 @@ REQUIRED_BINS = ["mode_phy", "mode_link", "scrambling_on", "scrambling_off",
                  "backlog_kept_across_burst", "idle_not_permitted_while_owed", "zero_data_word_in_burst_while_owed",
                  "boundary_crossed_on_replaced_word", "boundary_crossed_on_last_burst_word", "boundary_crossed_on_first_idle_word",
                  "com_word_after_skp", "data_word_right_after_skp", "burst_max_packet", "long_session", "overload_session",
-                 "permission_toggles_in_idle_run", "link_idle_to_busy", "link_tseq_word"]
+                 "permission_toggles_in_idle_run", "link_filler_to_packet", "link_packet_to_filler", "link_tseq_word",
+                 "link_u0_reached", "link_u0_link_command", "link_u0_header_packet", "link_u0_data_payload", "link_u0_partner_header",
+                 "link_filler_run_of_one_word"]
 REQUIRED_EVENTS = ["phy_words_compared", "phy_data_symbols_descrambled", "skp_words", "skp_sets_owed_checks", "idle_words_replaced",
                    "idle_words_kept", "scrambler_hold_cycles", "inserter_sending_skip_cycles",
-                   "link_cycles_monitored", "link_can_send_skp_cycles", "link_busy_cycles", "link_arbiter_idle_cycles"]
+                   "link_cycles_monitored", "link_can_send_skp_cycles", "link_packet_words", "link_filler_words"]
 ASSUMPTIONS = ["phy harness: tx_electrical_idle is low from the start-up on; the stream before the COM-led sync word is not judged",
                "SKP sets are counted against all symbols on the PHY pins (SKP symbols included) with a phase allowance of 4 words",
                "the link stream never contains K28.1, COM only in symbol 0 of an all-control word",
@@ -217,7 +223,7 @@ def build_phy_script(rng, res, profile, pre_words):
     # sync word first: COM + three control symbols, unique in the stream head
     sb.add(*pack([(COM, 1), (SDP, 1), (EDB, 1), (END, 1)]), 0, 1, "sync")
     if profile == "long":
-        target = rng.randint(8000, 14000)
+        target = rng.randint(6000, 10000)
     elif profile == "overload":
         target = rng.randint(2500, 5000)
     else:
@@ -281,12 +287,14 @@ def build_phy_script(rng, res, profile, pre_words):
                 sb.idle(rng.choice([1, 2]), permitted=False)
                 sb.idle(rng.choice([1, 2, 3]))
             elif k < 0.8:
-                sb.idle(rng.choice([2, 3, 4, 6]))
+                sb.idle(rng.choice([1, 2, 3, 4, 6]))
+                if rng.random() < 0.6:
+                    sb.com_word()
             else:
                 sb.com_word()
                 sb.idle(1)
                 sb.com_word() if rng.random() < 0.5 else sb.burst(2)
-        elif r < 0.80:
+        elif r < 0.78:
             # deep backlog (4..6 sets) built from bursts separated by non-permitted idle, then drained in pieces
             sb.burst(rng.choice([264, 266]))
             sb.idle(rng.choice([1, 2]), permitted=False)
@@ -305,11 +313,14 @@ def build_phy_script(rng, res, profile, pre_words):
                 sb.burst_to_boundary(-1)                     # boundary crossed on the first idle word
                 sb.idle(rng.choice([1, 2, 5]))
             else:
-                # boundary crossed on a word that is being replaced: need >= 2 owed when the crossing idle word comes
-                sb.burst(rng.choice([177, 180, 264]))
+                # boundary crossed on a word that is being replaced: a backlog of >= 4 sets, so that two or three consecutive
+                # idle words are replaced, and the crossing aimed at the second of them (whatever the phase of the DUT's counter)
+                sb.burst(rng.choice([264, 266]))
                 sb.idle(rng.choice([1, 2]), permitted=False)
-                sb.burst_to_boundary(rng.choice([-1, -1, -2]))
-                sb.idle(rng.choice([1, 2, 3, 6]))
+                sb.burst_to_boundary(-2)
+                while sb.owed < 4:
+                    sb.burst_to_boundary(-2)
+                sb.idle(rng.choice([3, 3, 4, 6]))
     sb.idle(30)
     return sb.words
 
@@ -630,32 +641,118 @@ def make_stub_phy():
 
 
 class LinkMonitor:
-    """per-cycle judgement of what the link layer offers to the physical layer"""
+    """Per-cycle judgement of what the link layer offers to the physical layer.
 
-    def __init__(self, res, b, stub, arbiter):
-        self.res, self.b, self.stub, self.arb = res, b, stub, arbiter
+    The transmit stream is parsed with the framing rules of USB 3.2 (7.2.1 header packets and data packet payloads, 7.2.2 link
+    commands, 6.4.1 training sets), so that a word is known to be either part of a packet / ordered set or filler.
+      * `can_send_skp` high  =>  the offered word is logical idle, valid, and not part of a packet or ordered set;
+      * filler that is not permitted: at most 2 words per run of filler (the cycle in which the transmit arbiter switches to a
+        new stream is such a word) - otherwise idle time is withheld from the CTC.
+    The arbiter's `idle` output (registry) is only counted: the monitor is blind if it is never seen in both states.
+    """
+
+    def __init__(self, res, b, stub, arbiter, link):
+        self.res, self.b, self.stub, self.arb, self.link = res, b, stub, arbiter, link
+        self.prev_trained = 0
         self.prev_idle = None
-        self.judge = True
-        self.words = 0
+        self.left = 0              # words of the current header packet / link command / training set still to come
+        self.in_dpp = False        # inside a data packet payload (until its end framing)
+        self.in_ts = False         # the current structure is a training set
+        self.unpermitted = 0       # unpermitted filler words in the current run of filler
+        self.flagged_run = False
+        self.prev_in_packet = None
+        self.filler_run = 0
 
     def watch(self):
         s = self.stub
-        self.b.watch(s.can_send_skp, s.sink.valid, s.sink.payload, s.sink.ctrl, s.tx_electrical_idle)
+        self.b.watch(s.can_send_skp, s.sink.valid, s.sink.payload, s.sink.ctrl, s.tx_electrical_idle, self.link.trained)
         if self.arb is not None:
             self.b.watch(self.arb.idle)
+
+    def classify(self, sd, sc, sv):
+        """-> True if the word belongs to a packet / ordered set (and advance the framing state)"""
+        if self.in_dpp:
+            # the payload ends with END END END EPF or EDB EDB EDB EPF, at any symbol offset: EPF (K23.7) is its last symbol
+            for i in range(4):
+                if (sc >> i) & 1 and (sd >> (8 * i)) & 0xFF == EPF:
+                    self.in_dpp = False
+            return True
+        if self.left:
+            if self.in_ts and (sd, sc) == (0, 0):
+                # no training set contains a D0.0 D0.0 D0.0 D0.0 word: the set was cut short (luna starts a new TSEQ set in the
+                # cycle in which the LTSSM leaves Polling.RxEQ); this is filler
+                self.left = 0
+            else:
+                self.left -= 1
+                return True
+        self.in_ts = False
+        if not sv:
+            return False
+        if (sd, sc) == (0xF7FBFBFB, 0xF):        # SHP SHP SHP EPF
+            self.left = 4
+        elif (sd, sc) == (0xF7FEFEFE, 0xF):      # SLC SLC SLC EPF
+            self.left = 1
+        elif (sd, sc) == (0xF75C5C5C, 0xF):      # SDP SDP SDP EPF
+            self.in_dpp = True
+        elif (sd, sc) == (0xBCBCBCBC, 0xF):      # TS1 / TS2: 16 symbols
+            self.left, self.in_ts = 3, True
+        elif (sc & 1) and (sd & 0xFF) == COM:    # TSEQ: 32 symbols
+            self.left, self.in_ts = 7, True
+        else:
+            return (sd, sc) != (0, 0)
+        return True
 
     def __call__(self, b):
         s, res = self.stub, self.res
         cs, sv, sd, sc = b.get(s.can_send_skp), b.get(s.sink.valid), b.get(s.sink.payload), b.get(s.sink.ctrl)
         res.event("link_cycles_monitored")
+        trained = b.get(self.link.trained)
+        elec_idle = b.get(s.tx_electrical_idle)
+        if elec_idle or trained != self.prev_trained:
+            # nothing is transmitted in electrical idle, and a change of link state may cut a packet or ordered set short:
+            # the framing state starts afresh
+            self.prev_trained = trained
+            self.left, self.in_dpp, self.unpermitted, self.prev_in_packet = 0, False, 0, None
+        if elec_idle:
+            # only "permission implies logical idle" is judged (whether idle time is granted is moot while nothing is sent)
+            res.event("link_cycles_in_electrical_idle")
+            if cs and ((sd, sc) != (0, 0) or not sv):
+                res.violation("skp_permitted_on_non_idle_word", "cycle %d (electrical idle): can_send_skp=1 while the offered word is "
+                              "%08x/%x valid=%d" % (b.cycle, sd, sc, sv))
+            return
+        in_packet = self.classify(sd, sc, sv)
+        if in_packet:
+            res.event("link_packet_words")
         if cs:
             res.event("link_can_send_skp_cycles")
             if (sd, sc) != (0, 0) or not sv:
                 res.violation("skp_permitted_on_non_idle_word", "cycle %d: can_send_skp=1 while the offered word is %08x/%x valid=%d"
                               % (b.cycle, sd, sc, sv))
-        if not sv and (sd, sc) != (0, 0) and not b.get(s.tx_electrical_idle):
+            elif in_packet:
+                res.violation("skp_permitted_inside_packet", "cycle %d: can_send_skp=1 on an all-zero word that is part of a packet"
+                              % b.cycle)
+        if not sv and (sd, sc) != (0, 0):
             res.violation("invalid_word_offered_is_not_logical_idle",
                           "cycle %d: sink.valid=0 but payload %08x/%x is offered; the physical layer transmits it" % (b.cycle, sd, sc))
+        if self.prev_in_packet is not None and self.prev_in_packet != in_packet:
+            res.bin("link_filler_to_packet" if in_packet else "link_packet_to_filler")
+        self.prev_in_packet = in_packet
+        if not in_packet:
+            res.event("link_filler_words")
+            if not cs:
+                self.unpermitted += 1
+                res.event("link_filler_words_not_permitted")
+                if self.unpermitted > 2 and not self.flagged_run:
+                    self.flagged_run = True
+                    res.violation("skp_not_permitted_on_idle_filler", "cycle %d: %d words of logical-idle filler in a row without can_send_skp"
+                                  % (b.cycle, self.unpermitted))
+            self.filler_run += 1
+        else:
+            if self.filler_run == 1:
+                res.bin("link_filler_run_of_one_word")
+            self.filler_run = 0
+            self.unpermitted = 0
+            self.flagged_run = False
         if (sd, sc) == TSEQ_FIRST:
             res.bin("link_tseq_word")
         if self.arb is not None:
@@ -671,12 +768,34 @@ class LinkMonitor:
             if self.prev_idle == 0 and idle:
                 res.bin("link_busy_to_idle")
             self.prev_idle = idle
-            if idle and not cs:
-                res.violation("skp_not_permitted_while_arbiter_idle", "cycle %d: no transmit stream active, word %08x/%x, can_send_skp=0"
-                              % (b.cycle, sd, sc))
-            if cs and not idle:
-                res.violation("skp_permitted_while_arbiter_busy", "cycle %d: a transmit stream is active (word %08x/%x), can_send_skp=1"
-                              % (b.cycle, sd, sc))
+            if bool(idle) != bool(cs):
+                res.event("link_permission_differs_from_arbiter_idle")
+
+
+class ShortTSEQ:
+    """Harness-side parameter override: the TSEQ emitter is constructed with a burst of `sets` ordered sets instead of 65536
+    (524288 cycles), so that U0 is reachable in a short case.  Nothing else is touched; `sets=None` leaves luna unmodified."""
+
+    def __init__(self, sets):
+        self.sets = sets
+
+    def __enter__(self):
+        if self.sets is None:
+            return self
+        from luna.gateware.usb.usb3.link.ordered_sets import TSEmitter
+        self.cls, self.orig = TSEmitter, TSEmitter.__init__
+        orig, sets = self.orig, self.sets
+
+        def __init__(slf, *a, **k):
+            if k.get("transmit_burst_length") == 65536:
+                k["transmit_burst_length"] = sets
+            orig(slf, *a, **k)
+        TSEmitter.__init__ = __init__
+        return self
+
+    def __exit__(self, *exc):
+        if self.sets is not None:
+            self.cls.__init__ = self.orig
 
 
 def run_link(rng, tier, res, full):
@@ -685,17 +804,18 @@ def run_link(rng, tier, res, full):
 
     stub = make_stub_phy()
     link = USB3LinkLayer(physical_layer=stub, ss_clock_frequency=125e6)
-    budget = 1_200_000 if full else 12000
-    with Registry(SuperSpeedStreamArbiter) as reg:
+    tseq_sets = None if full else rng.choice([24, 40, 64, 150])
+    budget = 1_200_000 if full else 40000
+    with Registry(SuperSpeedStreamArbiter) as reg, ShortTSEQ(tseq_sets):
         b = Bench(link, domain="ss", freq=125e6, clocks={"sync": 125e6}, max_cycles=budget)
     arb = reg.one(SuperSpeedStreamArbiter)
-    mon = LinkMonitor(res, b, stub, arb)
+    mon = LinkMonitor(res, b, stub, arb, link)
     mon.watch()
     b.watch(stub.send_lfps_polling, stub.train_equalizer, stub.perform_rx_detection, link.trained, link.ready,
             link.header_sink.ready, link.data_sink.ready, link.data_sink.valid)
     plan = {"ready_delay": rng.randint(0, 40), "vbus_delay": rng.randint(0, 60), "lfps_period": rng.choice([2, 3, 7, 20]),
-            "lfps_seen_at": rng.randint(0, 30), "rxeq_cycles": rng.choice([200, 500, 900, 1500]),
-            "warm_reset": rng.random() < 0.4, "second_attempt": rng.random() < 0.6, "full": full}
+            "lfps_seen_at": rng.randint(0, 30), "tseq_sets": tseq_sets,
+            "warm_resets": 0 if full else rng.choice([0, 0, 1, 2]), "u0_cycles": rng.randint(8000, 20000) if full else rng.randint(2500, 7000)}
     res.desc = {"mode": "link", "plan": plan}
     res.sig("link", sorted(plan.items()))
     st = {"rxeq_seen": 0}
@@ -721,8 +841,7 @@ def run_link(rng, tier, res, full):
         b.set(stub.source.valid, 1)
         b.set(stub.raw_source.valid, 1)
         b.set(stub.sink.ready, 1)                     # as the real physical layer outside electrical idle
-        if full:
-            b.set(link.header_source.ready, 1)        # the protocol layer takes every received header at once
+        b.set(link.header_source.ready, 1)            # the protocol layer takes every received header at once
         for _ in range(min(plan["ready_delay"], plan["vbus_delay"])):
             yield
         if plan["ready_delay"] <= plan["vbus_delay"]:
@@ -741,24 +860,22 @@ def run_link(rng, tier, res, full):
         if not ok:
             raise RuntimeError("link harness: Polling.RxEQ not reached")
         st["rxeq_seen"] += 1
-        if full:
-            yield from bring_up_to_u0(rng, res, b, stub, link, plan)
-            return
-        for _ in range(plan["rxeq_cycles"]):
-            yield
-        if plan["warm_reset"]:
-            # warm reset signalling during equaliser training: the LTSSM falls back to Rx.Detect
+        for _ in range(plan["warm_resets"]):
+            # warm reset signalling during equaliser training: the LTSSM falls back to Rx.Detect and trains again
+            for _ in range(rng.randint(3, 8 * tseq_sets // 2)):
+                yield
             b.set(stub.lfps_reset_detected, 1)
             for _ in range(rng.randint(2, 30)):
                 yield
             b.set(stub.lfps_reset_detected, 0)
             b.set(stub.lfps_cycles_sent, 0)
-            for _ in range(rng.randint(20, 200)):
+            for _ in range(rng.randint(5, 120)):
                 yield
-            if plan["second_attempt"]:
-                yield from lfps_phase(3000)
-                for _ in range(rng.randint(50, 400)):
-                    yield
+            ok = yield from lfps_phase(3000)
+            if not ok:
+                raise RuntimeError("link harness: Polling.RxEQ not reached again")
+            st["rxeq_seen"] += 1
+        yield from bring_up_to_u0(rng, res, b, stub, link, plan)
 
     b.add_driver(driver())
     b.add_monitor(mon)
@@ -770,10 +887,10 @@ def run_link(rng, tier, res, full):
 
 
 def bring_up_to_u0(rng, res, b, stub, link, plan):
-    """thorough tier: a link-partner model takes the link layer through the rest of the training into U0 and exchanges traffic
+    """a link-partner model takes the link layer through the rest of the training into U0 and exchanges traffic
     (driver generator; the judgement is done by LinkMonitor every cycle)."""
     from rv.ref import c35_usb3link as U
-    LGOOD, LCRD = 0, 1                      # link command class/type codes [USB 3.2 table 7-4]
+    LGOOD, LCRD, LRTY, LBAD = 0, 1, 2, 3    # link command class/type codes [USB 3.2 table 7-4]
     rxq = []                                # words the partner still has to put on the DUT's receive stream
 
     def rx_drive():
@@ -782,14 +899,16 @@ def bring_up_to_u0(rng, res, b, stub, link, plan):
             b.set(st.payload, d)
             b.set(st.ctrl, c)
 
-    # ---- Polling.RxEQ: 65536 TSEQ ordered sets
+    # ---- Polling.RxEQ: the TSEQ burst (65536 ordered sets unless shortened by the harness)
     n = 0
+    limit = 8 * (plan["tseq_sets"] or 65536) + 4000
     while b.get(stub.train_equalizer):
         n += 1
-        if n > 540000:
+        if n > limit:
             raise RuntimeError("link harness: TSEQ burst did not end")
         yield
-    res.event("link_full_tseq_cycles", n)
+    if plan["tseq_sets"] is None:
+        res.event("link_full_tseq_cycles", n)
     # ---- Polling.Active / Configuration: TS1 then TS2, as a partner does that follows the DUT
     for _ in range(rng.randint(12, 40)):
         rxq.extend(TS1_WORDS)
@@ -819,7 +938,7 @@ def bring_up_to_u0(rng, res, b, stub, link, plan):
             raise RuntimeError("link harness: U0 not reached")
         rx_drive()
         yield
-    res.bin("link_full_u0_reached")
+    res.bin("link_u0_reached")
     # ---- U0
     for sub in [7]:
         rxq.extend([(0, 0)] * rng.randint(2, 40))
@@ -828,8 +947,8 @@ def bring_up_to_u0(rng, res, b, stub, link, plan):
         rxq.extend([(0, 0)] * rng.randint(0, 4))
         rxq.extend(U.link_command_words(LCRD, sub))
     state = {"mode": None, "hdr": [], "acks": [], "credit": 0, "dut_credits": 0, "dut_next_seq": None, "my_seq": 0,
-             "hp_pending": False, "dp_words": None}
-    t_end = rng.randint(8000, 20000)
+             "hp_pending": False, "dp_words": None, "ignore_until_lrty": False}
+    t_end = plan["u0_cycles"]
 
     def parse_sink():
         d, c = b.get(stub.sink.payload), b.get(stub.sink.ctrl)
@@ -839,9 +958,12 @@ def bring_up_to_u0(rng, res, b, stub, link, plan):
             state["mode"] = None
             lo = d & 0xFFFF
             cmd, sub = (lo >> 7) & 0xF, lo & 0xF
-            res.bin("link_full_link_command")
+            res.bin("link_u0_link_command")
             if cmd == LCRD:
                 state["dut_credits"] += 1
+            elif cmd == LRTY:
+                state["ignore_until_lrty"] = False
+                res.bin("link_u0_retry")
             elif cmd == LGOOD and state["dut_next_seq"] is None:
                 state["dut_next_seq"] = (sub + 1) & 7
             return
@@ -849,16 +971,17 @@ def bring_up_to_u0(rng, res, b, stub, link, plan):
             state["hdr"].append(d)
             if len(state["hdr"]) == 4:
                 seq = (state["hdr"][3] >> 16) & 7
-                state["acks"].append([rng.randint(4, 60), seq])
                 state["mode"] = None
-                res.bin("link_full_header_packet")
+                res.bin("link_u0_header_packet")
+                if not state["ignore_until_lrty"]:
+                    state["acks"].append([rng.randint(4, 60), seq])
             return
         if (d, c) == U.LCSTART:
             state["mode"] = "lc"
         elif (d, c) == U.HPSTART:
             state["mode"], state["hdr"] = "hp", []
         elif (d, c) == U.DPPSTART:
-            res.bin("link_full_data_payload")
+            res.bin("link_u0_data_payload")
 
     t = 0
     while t < t_end:
@@ -869,10 +992,16 @@ def bring_up_to_u0(rng, res, b, stub, link, plan):
             a[0] -= 1
         if state["acks"] and state["acks"][0][0] <= 0 and not rxq:
             _, seq = state["acks"].pop(0)
-            rxq.extend(U.link_command_words(LGOOD, seq))
-            rxq.extend([(0, 0)] * rng.randint(0, 3))
-            rxq.extend(U.link_command_words(LCRD, state["credit"]))
-            state["credit"] = (state["credit"] + 1) & 3
+            if rng.random() < 0.08:
+                # the partner claims the header was damaged: the DUT has to send LRTY and everything unacknowledged again
+                rxq.extend(U.link_command_words(LBAD, 0))
+                state["acks"] = []
+                state["ignore_until_lrty"] = True
+            else:
+                rxq.extend(U.link_command_words(LGOOD, seq))
+                rxq.extend([(0, 0)] * rng.randint(0, 3))
+                rxq.extend(U.link_command_words(LCRD, state["credit"]))
+                state["credit"] = (state["credit"] + 1) & 3
         r = rng.random()
         # the protocol layer above the DUT offers a header packet
         if state["hp_pending"]:
@@ -917,11 +1046,11 @@ def bring_up_to_u0(rng, res, b, stub, link, plan):
             state["dut_credits"] -= 1
             rxq.extend(U.header_words(0x04 | (rng.getrandbits(27) << 5), rng.getrandbits(32), rng.getrandbits(32), state["dut_next_seq"]))
             state["dut_next_seq"] = (state["dut_next_seq"] + 1) & 7
-            res.bin("link_full_partner_header")
+            res.bin("link_u0_partner_header")
         rx_drive()
         yield
     if not b.get(link.trained):
-        res.bin("link_full_left_u0")
+        res.bin("link_u0_left")
 
 
 def run_case(rng, tier, res):
